@@ -6,6 +6,7 @@
 # and passes without it.  Then stores it under seeded/<seed-id>/.
 set -u
 ID="$1"; PROP="$2"; PATCH="$3"; DEMO="$4"; META="$5"
+mkdir -p /tmp/wt
 WT=/tmp/wt/verify-$ID
 git -C /repo worktree remove --force "$WT" 2>/dev/null
 git -C /repo worktree add -q --detach "$WT" HEAD || exit 2
